@@ -341,3 +341,40 @@ def _m18():
     src = inspect.getsource(mu._connect_randomly).replace("connects[dest] >= max_connects",
                                                           "connects[dest] > max_connects")
     exec(src, mu.__dict__)
+
+
+@mutant("c18_async_link_once_per_agent", "C18")
+def _m18b():
+    # connect_many_to_one(..., async_requests=True) with sources from several simulators: only the first
+    # source simulator is linked to the agent (needs the real-World family)
+    from mosaik import scenario
+    orig = scenario.World.connect_async_requests
+
+    def connect_async_requests(self, src, dest):
+        seen = self.__dict__.setdefault("_dsim_async_dests", set())
+        if dest._sid in seen:
+            return
+        seen.add(dest._sid)
+        return orig(self, src, dest)
+    scenario.World.connect_async_requests = connect_async_requests
+
+
+# ------------------------------------------------------------------------------ C14 (slow survivor)
+@mutant("c14_stop_waits_for_open_request", "C14")
+def _m14c():
+    # the shutdown waits for the request that is still open towards a surviving in-process simulator
+    from mosaik import proxies
+    orig_send = proxies.LocalProxy.send
+    orig_stop = proxies.LocalProxy.stop
+
+    async def send(self, request):
+        lock = self.__dict__.setdefault("_dsim_lock", asyncio.Lock())
+        async with lock:
+            return await orig_send(self, request)
+
+    async def stop(self):
+        lock = self.__dict__.setdefault("_dsim_lock", asyncio.Lock())
+        async with lock:
+            return await orig_stop(self)
+    proxies.LocalProxy.send = send
+    proxies.LocalProxy.stop = stop
